@@ -9,6 +9,7 @@
 From Coq Require Import ZArith QArith Qabs String List Bool.
 From Interval Require Import Specific_bigint Specific_ops Float_full Interval Xreal Basic.
 From PT Require Import Str Dec Py IExpr ActEval Act DecayTime.
+From PT.Gen Require Import ActivationDat.
 Import ListNotations.
 Open Scope string_scope.
 
@@ -68,7 +69,7 @@ Definition spec_check (rem : list (Q * Q)) (target : Q) (out : pyval) : sverdict
 
 Inductive mverdict := MOk | MUnknown | MKind (what : string) | MTime.
 Definition model_check (used : list (Q * list Q)) (rest : list Q) (target : Q) (out : pyval) : mverdict :=
-  match decay_time IB.type (numI PRECI) used rest target, out with
+  match decay_time IB.type (numI PRECI) dt_early_exit_vs_target dt_df_rest_factor used rest target, out with
   | Unk, _ => MUnknown
   | Ok RetZero, PI 0 => MOk
   | Ok RetZero, _ => MKind "model returns 0"
